@@ -136,9 +136,28 @@ def main():
         rp = json.load(open(args.replay))
         rc = props.replay(run, model, rp)
         sys.exit(rc)
+    # escalation (DESIGN 2.2): a proof obligation that no longer checks, or source functions that changed since the
+    # model was written, multiply the budget of correspondence and falsifier
+    import fingerprint
+    changed_src = fingerprint.changed()
+    pre_obl, pre_dis, _, _ = common.check_props_file(prop)
+    run.scale = 1
+    if changed_src:
+        run.scale = 3
+        run.notes.append("source changed since the model was written (budget x3): " + ", ".join(changed_src[:6]))
+    if not pre_obl or set(pre_obl) != set(pre_dis):
+        run.scale = 3
+        run.notes.append("proof obligations of %s do not all check (budget x3)" % prop)
     try:
         if model is not None:
             spec["fn"](run, model)
+            diffs = any(run.components.get(c, {}).get("diffs") for c in spec.get("components", []))
+            if diffs and not [h for h in run.falsifier_hits if h["property"] == prop] and run.scale == 1:
+                # model and code disagree but the property was not seen to fail: search harder before reporting
+                run.notes.append("correspondence differs without a failing input: second pass with budget x3")
+                run.scale = 3
+                run.salt = "/second-pass"
+                spec["fn"](run, model)
         else:
             run.broken.append("model driver unavailable")
     except Exception as e:
